@@ -281,6 +281,35 @@ def check(tier):
                     if bad_:
                         problems.append(("eval-leaf", s, le, bad_))
                         break
+            # the callback's result IS the head's value, also when it is nil: the same stream with a nil result at chosen
+            # reductions; every other call must then see nil exactly where the run above saw the result of such a reduction
+            if ulog and re_.get("error") is None:
+                nn = len(ulog)
+                picks = [sorted(rng.sample(range(nn), max(1, nn // 3))), [nn - 1], list(range(nn))]
+                for nil_at in picks[: (2 if len(s) > 40 else 3)]:
+                    rn = hook.call({"op": "parse_trace", "mode": "eval", "tokens": fake(s), "nil_at": nil_at})
+                    dist["nil_results"] = dist.get("nil_results", 0) + 1
+                    nlog = rn.get("log", [])
+                    nil_ids = {"#%d" % k for k in nil_at}
+                    bad_ = None
+                    if rn.get("error") is not None or len(nlog) != nn:
+                        bad_ = {"note": "with nil results the evaluation takes another course", "error": rn.get("error"), "calls": len(nlog)}
+                    else:
+                        for eu, en in zip(ulog, nlog):
+                            exp_args = [[None if (isinstance(v, str) and v in nil_ids) else v, pos] for v, pos in eu[2]]
+                            if eu[1] != en[1] or [list(a) for a in en[2]] != exp_args:
+                                bad_ = {"note": "a head whose callback returned nil must carry nil (and its first body symbol's position)",
+                                        "call": eu[3], "production": eu[1], "received": en[2], "expected": exp_args}
+                                break
+                        if bad_ is None and (nn - 1) in nil_at:
+                            expv = [None, re_["value"][1]] if re_.get("value") else None
+                            if rn.get("nil_result") or rn.get("value") != expv:
+                                bad_ = {"note": "the value returned to the caller is not the last callback's (nil) result",
+                                        "returned": rn.get("value"), "expected": expv}
+                    if bad_:
+                        bad_["nil_at"] = nil_at
+                        problems.append(("eval-nil-result", s, le, bad_))
+                        break
             if re_.get("error") is not None or re_.get("nil_result"):
                 problems.append(("eval-mode-failed", s, le, re_))
             elif tree is not None:
@@ -356,7 +385,7 @@ def check(tier):
     rep.cov["rule"] = ("token streams of generated specifications (lexed by the real scanner, replayed through a fake lexer), single-token "
                        "insertions/deletions/truncations, lexical-error endings, random sequences; for each: callback log and error of Parse vs "
                        "the Coq driver model; accepted ones also through ParseAndBuildAST (tree == replay of the log) and ParseAndEvaluate "
-                       "(arguments/positions == tree fold); callback failure injected at every step of short streams; non-trivial = log of >= 5 callbacks")
+                       "(arguments/positions == tree fold; repeated lexemes; nil results at a third of / the last / all reductions must reach the parent and the caller as nil); callback failure injected at every step of short streams; non-trivial = log of >= 5 callbacks")
     rep.cov["input_distribution"] = dist
     rep.cov["samples"] = [{"tokens": [T.terms[a] for a in c[0]], "lex_error": c[1], "outcome": c[3], "callbacks": len(c[2])} for c in cases[7:11]]
     if cerr is not None:
